@@ -4,7 +4,7 @@ cd /verif
 for s in "$@"; do
   p=${s%%-*}
   echo "== $s $(date +%T)"
-  out=$(timeout 3600 tools/with_mutation seeded/$s/patch.diff ./check $p 2>&1 | grep -E "^(OK|VIOLATION|KNOWN|  broken|patch)" | cut -c1-300)
+  out=$(timeout 3600 tools/mutcheck seeded/$s/patch.diff $p 2>&1 | grep -E "^(OK|VIOLATION|KNOWN|  broken|patch)" | cut -c1-300)
   echo "$out"
   echo "$out" > seeded/$s/check_result.txt
 done
